@@ -551,3 +551,1038 @@ Proof.
     pose proof (C01_exec_no_panic_partial E Hft fuel m (new_frame_machine_ok _ _ _ W1 W2)) as H;
     destruct (exec fuel E m) end; try exact Logic.I. exact H.
 Qed.
+
+(* ------------------------------------------------------------------ the two value-dependent sites *)
+Lemma wrap64_id : forall z, in_i64 z -> wrap64 z = z.
+Proof. unfold in_i64, wrap64, two63, two64; intros z H. rewrite Z.mod_small; lia. Qed.
+
+(* push.range: with int64 operands (all the Go VM can hold) the element loop stays inside the array *)
+Lemma range_loop_some : forall step y len, (step = 1 \/ step = -1) -> in_i64 y ->
+  forall n i idx acc, in_i64 i -> 0 <= (y - i) * step -> (y - i) * step <= Z.of_nat n -> idx + (y - i) * step < len ->
+  range_loop n i step y idx len acc <> None.
+Proof.
+  intros step y len Hs Hy. induction n as [|n IH]; intros i idx acc Hi H1 H2 H3.
+  - cbn [range_loop]. replace (len <=? idx) with false by (symmetry; apply Z.leb_gt; lia).
+    replace (i =? y) with true by (symmetry; apply Z.eqb_eq; destruct Hs; subst step; lia). discriminate.
+  - cbn [range_loop]. replace (len <=? idx) with false by (symmetry; apply Z.leb_gt; lia).
+    destruct (i =? y) eqn:He; [discriminate|]. apply Z.eqb_neq in He.
+    assert (Hi2 : in_i64 (i + step)) by (unfold in_i64 in *; destruct Hs; subst step; lia).
+    rewrite (wrap64_id _ Hi2). apply IH; auto; destruct Hs; subst step; lia.
+Qed.
+
+Lemma push_range_no_panic_i64 : forall x y w s, in_i64 x -> in_i64 y -> push_range (VInt x) (VInt y) w <> RPanic s.
+Proof.
+  intros x y w s Hx Hy. unfold push_range.
+  assert (Hw : forall d, 0 <= d < two64 -> (wrap64 d <? 0) || (511 <? wrap64 d) = false -> wrap64 d = d /\ d <= 511).
+  { intros d Hd H. apply orb_false_iff in H. destruct H as [A B]. apply Z.ltb_ge in A, B.
+    unfold wrap64, two63, two64 in *. destruct (Z_lt_dec d 9223372036854775808).
+    - rewrite Z.mod_small in * by lia. lia.
+    - replace (d + 9223372036854775808) with (d - 9223372036854775808 + 1 * 18446744073709551616) in A by lia.
+      rewrite Z.mod_add in A by lia. rewrite Z.mod_small in A by lia. lia. }
+  destruct (x <=? y) eqn:Hxy.
+  - apply Z.leb_le in Hxy. destruct ((wrap64 (y - x) <? 0) || (511 <? wrap64 (y - x))) eqn:Hc; [discriminate|].
+    destruct (Hw (y - x)) as [W1 W2]; [unfold in_i64, two63, two64 in *; lia|exact Hc|]. rewrite W1.
+    rewrite (wrap64_id (y - x + 1)) by (unfold in_i64, two63 in *; lia).
+    destruct (512 <? y - x + 1); [discriminate|].
+    destruct (range_loop 513 x 1 y 0 (y - x + 1) []) eqn:Hr.
+    + unfold new_arr. destruct (alloc_arr _ _). discriminate.
+    + exfalso. revert Hr. apply range_loop_some; auto; lia.
+  - apply Z.leb_gt in Hxy. destruct ((wrap64 (x - y) <? 0) || (511 <? wrap64 (x - y))) eqn:Hc; [discriminate|].
+    destruct (Hw (x - y)) as [W1 W2]; [unfold in_i64, two63, two64 in *; lia|exact Hc|]. rewrite W1.
+    rewrite (wrap64_id (x - y + 1)) by (unfold in_i64, two63 in *; lia).
+    destruct (512 <? x - y + 1); [discriminate|].
+    destruct (range_loop 513 x (-1) y 0 (x - y + 1) []) eqn:Hr.
+    + unfold new_arr. destruct (alloc_arr _ _). discriminate.
+    + exfalso. revert Hr. apply range_loop_some; auto; lia.
+Qed.
+
+(* ------------------------------------------------------------------ A3: non-vacuity *)
+Definition cfg0 : config :=
+  {| cfg_ignore_div0 := false; cfg_min_mode := false; cfg_max_mode := false; cfg_op_limit := 0;
+     cfg_def_expr_empty := true; cfg_st_callback := false |}.
+Definition env0 (ft : ftab) : env := {| e_ftab := ft; e_cfg := cfg0 |}.
+Definition st0 : vmstate := init_vmstate {| hi := 1; lo := 2 |}.
+
+(* byte-code dumped from the real parser (harness k2) for "1+2*3; x=5; if x {x}" *)
+Definition prog_if : code :=
+  [I OpPushInt (OInt 1); I OpPushInt (OInt 2); I OpPushInt (OInt 3); I OpMul ONil; I OpAdd ONil;
+   I OpPushInt (OInt 5); I OpStore (OStr "x"); I OpMarkDetail (OSpan 15 16); I OpLdD (OStr "x"); I OpBlockPush ONil;
+   I OpJne (OInt 3); I OpMarkDetail (OSpan 18 19); I OpLdD (OStr "x"); I OpJmp (OInt 0); I OpBlockPop ONil; I OpHalt ONil].
+Definition src_if : string := "1+2*3; x=5; if x {x}".
+
+Example code_wf_accepts_real_program :
+  code_wf prog_if = true /\ spans_wf (Some src_if) prog_if = true /\
+  exists st', run 100 (env0 []) prog_if src_if st0 = Val VNull st' /\ vs_ops st' = 16.
+Proof. split; [reflexivity|]. split; [reflexivity|]. eexists; split; vm_compute; reflexivity. Qed.
+
+(* "x=1; while x<3 {x=x+1}; x": a backward jump (-11 from index 13) *)
+Definition prog_while : code :=
+  [I OpPushInt (OInt 1); I OpStore (OStr "x"); I OpBlockPush ONil; I OpMarkDetail (OSpan 11 12); I OpLdD (OStr "x");
+   I OpPushInt (OInt 3); I OpLt ONil; I OpJne (OInt 6); I OpMarkDetail (OSpan 18 19); I OpLdD (OStr "x");
+   I OpPushInt (OInt 1); I OpAdd ONil; I OpStore (OStr "x"); I OpJmp (OInt (-11)); I OpBlockPop ONil;
+   I OpMarkDetail (OSpan 24 25); I OpLdD (OStr "x"); I OpHalt ONil].
+Example code_wf_accepts_loop :
+  code_wf prog_while = true /\ spans_wf (Some "x=1; while x<3 {x=x+1}; x"%string) prog_while = true /\
+  exists st', run 100 (env0 []) prog_while "x=1; while x<3 {x=x+1}; x" st0 = Val (VInt 3) st' /\ vs_ops st' = 34.
+Proof. split; [reflexivity|]. split; [reflexivity|]. eexists; split; vm_compute; reflexivity. Qed.
+
+(* "          &a = 2d+1; a": a computed value whose body uses push.def_expr; the parser made the span
+   relative to the body text *)
+Definition ftab_comp : ftab :=
+  [ {| f_computed := true; f_name := ""; f_params := []; f_expr := "2d+1";
+       f_code := Some [I OpPushInt (OInt 2); I OpDiceInit ONil; I OpDiceSetTimes ONil; I OpMarkDetail (OSpan 0 2);
+                       I OpPushDefExpr ONil; I OpDice ONil; I OpPushInt (OInt 1); I OpAdd ONil] |} ].
+Definition prog_comp : code :=
+  [I OpPushComputed (OFn 0); I OpStore (OStr "a"); I OpMarkDetail (OSpan 21 22); I OpLdD (OStr "a"); I OpHalt ONil].
+Example ftab_wf_accepts_real_computed :
+  ftab_wf ftab_comp = true /\ code_wf prog_comp = true /\
+  spans_wf (Some "          &a = 2d+1; a"%string) prog_comp = true /\
+  exists st', run 100 (env0 ftab_comp) prog_comp "          &a = 2d+1; a" st0 = Val (VInt 173) st' /\ vs_ops st' = 115.
+Proof. split; [reflexivity|]. split; [reflexivity|]. split; [reflexivity|]. eexists; split; vm_compute; reflexivity. Qed.
+
+Example code_wf_rejects_nil_operand : code_wf [I OpPushInt ONil; I OpHalt ONil] = false.
+Proof. reflexivity. Qed.
+Example code_wf_rejects_nil_jump : code_wf [I OpPushInt (OInt 1); I OpJeDup ONil; I OpHalt ONil] = false.
+Proof. reflexivity. Qed.
+Example code_wf_rejects_backward_jump : code_wf [I OpJmp (OInt (-5)); I OpHalt ONil] = false.
+Proof. reflexivity. Qed.
+Example code_wf_accepts_jump_to_start : code_wf [I OpNop ONil; I OpJmp (OInt (-2)); I OpHalt ONil] = true.
+Proof. reflexivity. Qed.
+
+(* the hypotheses matter: each of these ill-formed programs really reaches a panic site *)
+Example non_wf_jump_panics :
+  run 100 (env0 []) [I OpJmp (OInt (-5)); I OpHalt ONil] "" st0 = OPanic "code index negative".
+Proof. vm_compute; reflexivity. Qed.
+Example non_wf_operand_panics :
+  run 100 (env0 []) [I OpPushInt (OInt 1); I OpJeDup ONil; I OpHalt ONil] "" st0 = OPanic "operand is not an IntType".
+Proof. vm_compute; reflexivity. Qed.
+(* ld.fs with a negative count RAISES the top: why instr_wf asks for a non-negative one *)
+Example non_wf_ldfs_panics :
+  code_wf [I OpLdFs (OInt (-1000)); I OpHalt ONil] = false /\
+  run 100 (env0 []) [I OpLdFs (OInt (-1000)); I OpHalt ONil] "" st0 = OPanic "stack index 1000".
+Proof. split; [reflexivity|vm_compute; reflexivity]. Qed.
+(* a span outside the text: why spans_wf is asked for (dice state open, default sides) *)
+Example non_wf_span_panics :
+  code_wf [I OpDiceInit ONil; I OpMarkDetail (OSpan 0 9); I OpPushDefExpr ONil; I OpHalt ONil] = true /\
+  spans_wf (Some "d"%string) [I OpDiceInit ONil; I OpMarkDetail (OSpan 0 9); I OpPushDefExpr ONil; I OpHalt ONil] = false /\
+  run 100 (env0 []) [I OpDiceInit ONil; I OpMarkDetail (OSpan 0 9); I OpPushDefExpr ONil; I OpHalt ONil] "d" st0
+  = OPanic "slice bounds out of range (push.def_expr)".
+Proof. split; [reflexivity|]. split; [reflexivity|vm_compute; reflexivity]. Qed.
+
+(* ---- the unrestricted statement is false OF THE MODEL: two sites depend on a value, not on the code.
+   (1) an integer outside int64 (the model's VInt carries a Z; a Go IntType cannot hold it) *)
+Definition prog_range_big : code :=
+  [I OpPushInt (OInt 0); I OpPushInt (OInt 18446744073709551616); I OpPushRange ONil; I OpHalt ONil].
+Example C01_run_no_panic_refuted_big_int :
+  code_wf prog_range_big = true /\ spans_wf (Some ""%string) prog_range_big = true /\
+  run 100 (env0 []) prog_range_big "" st0 = OPanic range_msg.
+Proof. split; [reflexivity|]. split; [reflexivity|vm_compute; reflexivity]. Qed.
+
+(* (2) a variable holding the bound method Computed.compute WITHOUT its Self (no instruction creates one:
+   attr.get on a computed value reads only the attribute map; it can only come from outside, e.g. a decoder) *)
+Definition st_bare_compute : vmstate :=
+  {| vs_heap := set_map 0 [("f"%string, VNative "Computed.compute" SNone)] (vs_heap st0);
+     vs_pcg := vs_pcg st0; vs_attrs := vs_attrs st0; vs_ops := 0; vs_st := [] |}.
+Definition prog_call_f : code := [I OpLd (OStr "f"); I OpInvoke (OInt 0); I OpHalt ONil].
+Example C01_run_no_panic_refuted_bare_method :
+  code_wf prog_call_f = true /\ spans_wf (Some "f()"%string) prog_call_f = true /\
+  run 100 (env0 []) prog_call_f "f()" st_bare_compute = OPanic nilself_msg.
+Proof. split; [reflexivity|]. split; [reflexivity|vm_compute; reflexivity]. Qed.
+
+Print Assumptions C01_step_no_panic_partial.
+Print Assumptions C01_exec_no_panic_partial.
+Print Assumptions C01_run_no_panic_partial.
+Print Assumptions push_range_no_panic_i64.
+
+(* ================================================================== PART B: C07 *)
+Definition ops_of (w : world) : Z := c_ops (w_self w).
+
+(* B1: numOpCountAdd = saturating addition, then "limit set and exceeded" *)
+Lemma ops_add_value : forall c cur count, 0 <= cur <= MaxInt64 -> 0 <= count ->
+  fst (ops_add c cur count) = Z.min (cur + count) MaxInt64.
+Proof.
+  unfold ops_add, MaxInt64, wrap64, two63, two64; intros c cur count H1 H2; cbn [fst].
+  rewrite (Z.mod_small (9223372036854775807 - cur + 9223372036854775808)) by lia.
+  replace (9223372036854775807 - cur + 9223372036854775808 - 9223372036854775808) with (9223372036854775807 - cur) by lia.
+  destruct (9223372036854775807 - cur <? count) eqn:E.
+  - apply Z.ltb_lt in E. lia.
+  - apply Z.ltb_ge in E. rewrite Z.mod_small by lia. lia.
+Qed.
+
+Theorem C07_ops_add_spec : forall c cur count new over,
+  0 <= cur <= MaxInt64 -> 0 <= count -> ops_add c cur count = (new, over) ->
+  cur <= new /\ new <= MaxInt64 /\ new = Z.min (cur + count) MaxInt64 /\
+  (over = true <-> (0 < cfg_op_limit c /\ cfg_op_limit c < new)).
+Proof.
+  intros c cur count new over H1 H2 H.
+  pose proof (ops_add_value c cur count H1 H2) as Hv. pose proof (ops_add_over c cur count) as Ho.
+  rewrite H in Hv, Ho. cbn [fst snd] in Hv, Ho. repeat split; try lia; apply Ho; assumption.
+Qed.
+
+(* B2: the loop head: count first, then the pending error, the stack line, the dispatch *)
+Definition next_pc (m2 : machine) : machine :=
+  {| m_fr := fr_set_pc (m_fr m2) (fr_pc (m_fr m2) + 1); m_w := m_w m2 |}.
+Definition counted (E : env) (m : machine) : machine :=
+  {| m_fr := m_fr m; m_w := w_set_self_ops (m_w m) (fst (ops_add (e_cfg E) (ops_of (m_w m)) 1)) |}.
+
+Lemma count_op_spec : forall E m, count_op E m = (counted E m, snd (ops_add (e_cfg E) (ops_of (m_w m)) 1)).
+Proof. intros; unfold count_op, counted, ops_of. destruct (ops_add _ _ _); reflexivity. Qed.
+
+Lemma ops_of_set_self : forall w x, w_chain w <> [] -> ops_of (w_set_self_ops w x) = x.
+Proof. unfold ops_of, w_self, w_set_self_ops; intros w x H. destruct (w_chain w); [congruence|reflexivity]. Qed.
+
+Lemma counted_ops : forall E m, w_chain (m_w m) <> [] ->
+  ops_of (m_w (counted E m)) = fst (ops_add (e_cfg E) (ops_of (m_w m)) 1).
+Proof. intros; unfold counted; cbn [m_w]. apply ops_of_set_self; assumption. Qed.
+
+Lemma counted_rest : forall E m,
+  m_fr (counted E m) = m_fr m /\ w_heap (m_w (counted E m)) = w_heap (m_w m) /\
+  w_pcg (m_w (counted E m)) = w_pcg (m_w m) /\ w_st (m_w (counted E m)) = w_st (m_w m).
+Proof. intros; unfold counted, w_set_self_ops; cbn [m_fr m_w]. destruct (w_chain (m_w m)); cbn; auto. Qed.
+
+(* every dispatched instruction is handed to `step` on the machine whose counter is ops_add .. 1 of the
+   previous one; when that exceeds the limit the instruction is not executed *)
+Theorem C07_dispatch_counts : forall f E m,
+  fr_pc (m_fr m) < zlen (fr_code (m_fr m)) ->
+  exec (S f) E m =
+  if snd (ops_add (e_cfg E) (ops_of (m_w m)) 1) then Fail EBudget (counted E m)
+  else match fr_err (m_fr m) with
+       | Some e => Fail e (counted E m)
+       | None =>
+         if fr_top (m_fr m) =? stack_size then Fail EStack (counted E m)
+         else if fr_pc (m_fr m) <? 0 then Panic "code index negative"
+         else match nth_error (fr_code (m_fr m)) (Z.to_nat (fr_pc (m_fr m))) with
+              | None => Panic "code index out of range"
+              | Some ins =>
+                match step (exec f E) f E ins (counted E m) with
+                | SNext m2 => exec f E (next_pc m2)
+                | SStop m2 => Fin m2
+                | SFail e m2 => Fail e m2
+                | SPanic s => Panic s
+                | SFuel => OutOfFuel
+                | SUnsup s => Unsupported s
+                end
+              end
+       end.
+Proof.
+  intros f E m Hlen. cbn [exec].
+  replace (zlen (fr_code (m_fr m)) <=? fr_pc (m_fr m)) with false by (symmetry; apply Z.leb_gt; exact Hlen).
+  rewrite count_op_spec. reflexivity.
+Qed.
+
+Theorem C07_budget_error_once_exceeded : forall f E m,
+  0 < cfg_op_limit (e_cfg E) < MaxInt64 -> fr_pc (m_fr m) < zlen (fr_code (m_fr m)) ->
+  0 <= ops_of (m_w m) <= MaxInt64 -> cfg_op_limit (e_cfg E) <= ops_of (m_w m) ->
+  exec (S f) E m = Fail EBudget (counted E m).
+Proof.
+  intros f E m HL Hlen Hr Hex. rewrite C07_dispatch_counts by exact Hlen.
+  destruct (ops_add (e_cfg E) (ops_of (m_w m)) 1) as [new over] eqn:Ha.
+  assert (H01 : 0 <= 1) by lia.
+  destruct (C07_ops_add_spec _ _ _ _ _ Hr H01 Ha) as (H1 & H2 & H3 & H4).
+  cbn [snd]. replace over with true; [reflexivity|]. symmetry. apply H4. unfold MaxInt64 in *. lia.
+Qed.
+
+(* B4: a batch of dice is charged before the first die is rolled *)
+Definition charged (E : env) (w : world) (count : Z) : world :=
+  w_set_self_ops w (fst (ops_add (e_cfg E) (ops_of w) count)).
+Definition over_by (E : env) (w : world) (count : Z) : bool := snd (ops_add (e_cfg E) (ops_of w) count).
+
+Lemma add_ops_spec : forall E w count, add_ops E w count = (charged E w count, over_by E w count).
+Proof. intros; unfold add_ops, charged, over_by, ops_of. destruct (ops_add _ _ _); reflexivity. Qed.
+
+Lemma charged_pcg : forall E w n, w_pcg (charged E w n) = w_pcg w.
+Proof. intros; unfold charged, w_set_self_ops. destruct (w_chain w); reflexivity. Qed.
+
+(* `dice`: the generator is untouched whenever the instruction fails; a budget failure leaves the
+   charged counter; a roll happens only when the charge of d_times dice stayed within the limit, and
+   it happens on the charged world *)
+Theorem C07_dice_batch_charged_before_rolling : forall call rf E o m d rest,
+  fr_dice (m_fr m) = d :: rest ->
+  match step call rf E (I OpDice o) m with
+  | SFail e m' => w_pcg (m_w m') = w_pcg (m_w m) /\
+                  (e = EBudget -> m_w m' = charged E (m_w m) (d_times d) /\ over_by E (m_w m) (d_times d) = true)
+  | SNext m' => over_by E (m_w m) (d_times d) = false /\ exists s, m_w m' = w_set_pcg (charged E (m_w m) (d_times d)) s
+  | SStop _ => False
+  | _ => over_by E (m_w m) (d_times d) = false
+  end.
+Proof.
+  intros call rf E o m d rest Hd. unfold step; cbn [i_op i_arg]. rewrite Hd. unfold with_pop.
+  destruct (pop (m_fr m)) as [v fr1]. destruct v; try (cbn [m_w mk]; split; [reflexivity|discriminate]).
+  repeat match goal with |- context [if ?b then SFail EDice _ else _] =>
+           destruct b; [cbn [m_w mk]; split; [reflexivity|discriminate]|] end.
+  rewrite add_ops_spec. destruct (over_by E (m_w m) (d_times d)) eqn:Ho.
+  - cbn [m_w mk]. split; [apply charged_pcg|]. intros _; auto.
+  - destruct (dice_cap <? d_times d); [reflexivity|].
+    destruct (roll_common _ _ _ _ _ _ _ _ _ _ _) as [[[num x] s]|]; [|reflexivity].
+    unfold dice_result, do_push. destruct (push _ _); [|reflexivity]. cbn [m_w mk]. split; [reflexivity|].
+    exists s. reflexivity.
+Qed.
+
+(* when the charge exceeds the limit the instruction fails and no die was rolled *)
+Corollary C07_dice_over_budget_no_roll : forall call rf E o m d rest,
+  fr_dice (m_fr m) = d :: rest -> over_by E (m_w m) (d_times d) = true ->
+  exists e m', step call rf E (I OpDice o) m = SFail e m' /\ w_pcg (m_w m') = w_pcg (m_w m).
+Proof.
+  intros call rf E o m d rest Hd Ho. pose proof (C07_dice_batch_charged_before_rolling call rf E o m d rest Hd) as H.
+  destruct (step call rf E (I OpDice o) m) as [m'|m'|e m'|s| |s]; rewrite ?Ho in H;
+    try discriminate; try contradiction; try (destruct H; discriminate).
+  exists e, m'. split; [reflexivity|apply H].
+Qed.
+
+(* with well-formed operands the failure IS the budget error *)
+Lemma C07_dice_over_budget_is_EBudget : forall call rf E o m d rest sides l,
+  fr_dice (m_fr m) = d :: rest -> fr_live (m_fr m) = VInt sides :: l -> 0 < sides ->
+  (d_keep d = 0 \/ (0 < d_low d /\ 0 < d_high d)) ->
+  over_by E (m_w m) (d_times d) = true ->
+  exists fr1, step call rf E (I OpDice o) m = SFail EBudget (mk fr1 (charged E (m_w m) (d_times d))).
+Proof.
+  intros call rf E o m d rest sides l Hd Hl Hs Hk Ho. unfold step; cbn [i_op i_arg]. rewrite Hd. unfold with_pop, pop.
+  rewrite Hl. cbv beta iota zeta.
+  replace (sides <=? 0) with false by (symmetry; apply Z.leb_gt; lia).
+  replace (((d_keep d =? 1) || (d_keep d =? 3)) && (d_low d <=? 0)) with false.
+  2:{ symmetry. destruct Hk as [Hk|[Hk _]]; [rewrite Hk; reflexivity|]. apply andb_false_iff; right. apply Z.leb_gt; lia. }
+  replace (((d_keep d =? 2) || (d_keep d =? 4)) && (d_high d <=? 0)) with false.
+  2:{ symmetry. destruct Hk as [Hk|[_ Hk]]; [rewrite Hk; reflexivity|]. apply andb_false_iff; right. apply Z.leb_gt; lia. }
+  rewrite add_ops_spec, Ho. eexists; reflexivity.
+Qed.
+
+(* coc.bonus / coc.penalty: a negative count is an error; otherwise the count is charged first *)
+Theorem C07_coc_batch_charged_before_rolling : forall call rf E op o m n l,
+  op = OpCocBonus \/ op = OpCocPenalty -> fr_live (m_fr m) = VInt n :: l ->
+  let fr1 := snd (pop (m_fr m)) in
+  if n <? 0 then step call rf E (I op o) m = SFail EDice (mk fr1 (m_w m))
+  else if over_by E (m_w m) n then step call rf E (I op o) m = SFail EBudget (mk fr1 (charged E (m_w m) n))
+  else match step call rf E (I op o) m with
+       | SNext m' => exists s, m_w m' = w_set_pcg (charged E (m_w m) n) s
+       | SFail _ _ | SStop _ => False
+       | _ => True
+       end.
+Proof.
+  intros call rf E op o m n l Hop Hl. unfold step.
+  destruct Hop as [-> | ->]; cbn [i_op i_arg]; unfold with_pop, with_int, pop; rewrite Hl; cbv beta iota zeta; cbn [snd];
+    (destruct (n <? 0); [reflexivity|]); rewrite add_ops_spec; (destruct (over_by E (m_w m) n); [reflexivity|]);
+    (destruct (dice_cap <? n); [exact Logic.I|]);
+    (destruct (roll_coc _ _ _ _ _ _) as [[[r x] s]|]; [|exact Logic.I]);
+    unfold dice_result, do_push; (destruct (push _ _); [|exact Logic.I]); cbn [m_w mk];
+    exists s; reflexivity.
+Qed.
+
+(* WoD / Double Cross: every round's pool is charged before that round is rolled *)
+Lemma wod_budget_cnt_fst : forall n c addLine points threshold isGE mode pool succ ops s,
+  fst (wod_budget_cnt n c addLine points threshold isGE mode pool succ ops s)
+  = wod_budget n c addLine points threshold isGE mode pool succ ops s.
+Proof.
+  induction n; intros; cbn [wod_budget_cnt wod_budget]; [reflexivity|].
+  destruct (ops_add c ops pool) as [ops' over]. destruct over; [reflexivity|].
+  destruct (wod_round _ _ _ _ _ _ _ _ _ _ _) as [[[[sc add] x] s1]|]; [|reflexivity].
+  destruct (0 <? add); [|reflexivity].
+  specialize (IHn c addLine points threshold isGE mode add (succ + sc) ops' s1).
+  destruct (wod_budget_cnt n c addLine points threshold isGE mode add (succ + sc) ops' s1). exact IHn.
+Qed.
+
+Lemma dc_budget_cnt_fst : forall n c addLine points mode pool result ops s,
+  fst (dc_budget_cnt n c addLine points mode pool result ops s) = dc_budget n c addLine points mode pool result ops s.
+Proof.
+  induction n; intros; cbn [dc_budget_cnt dc_budget]; [reflexivity|].
+  destruct (ops_add c ops pool) as [ops' over]. destruct over; [reflexivity|].
+  destruct (dc_round _ _ _ _ _ _ _ _ _) as [[[[mx add] x] s1]|]; [|reflexivity].
+  destruct (0 <? add); [|reflexivity].
+  specialize (IHn c addLine points mode add (wrap64 (result + mx)) ops' s1).
+  destruct (dc_budget_cnt n c addLine points mode add (wrap64 (result + mx)) ops' s1). exact IHn.
+Qed.
+
+(* what a run of rounds may end with, given k dice in started rounds *)
+Definition rounds_charged (L ops : Z) (r : rounds_res) (k : Z) : Prop :=
+  0 <= k /\ k <= Z.max 0 (L - ops) /\
+  match r with
+  | RDone _ ops' _ => ops' = ops + k /\ ops' <= L        (* every die rolled was paid for, within the limit *)
+  | ROver ops' _ => L < ops'                             (* the round that broke the limit was not rolled *)
+  | RNoFuel => True
+  end.
+
+Lemma charge_step : forall c L ops pool ops' over, cfg_op_limit c = L -> 0 < L < MaxInt64 -> 0 <= ops <= MaxInt64 -> 0 <= pool ->
+  ops_add c ops pool = (ops', over) ->
+  (over = true -> L < ops') /\ (over = false -> ops' = ops + pool /\ ops' <= L).
+Proof.
+  intros c L ops pool ops' over HL HLr Hops Hpool Ha.
+  destruct (C07_ops_add_spec _ _ _ _ _ Hops Hpool Ha) as (H1 & H2 & H3 & H4). rewrite HL in H4. split.
+  - intros ->. apply H4; reflexivity.
+  - intros ->. assert (~ (0 < L /\ L < ops')) by (intros X; apply H4 in X; discriminate). lia.
+Qed.
+
+Theorem C07_wod_rounds_charged : forall c L addLine points threshold isGE mode, cfg_op_limit c = L -> 0 < L < MaxInt64 ->
+  forall n pool succ ops s, 0 <= ops <= MaxInt64 -> 0 <= pool ->
+  let '(r, k) := wod_budget_cnt n c addLine points threshold isGE mode pool succ ops s in rounds_charged L ops r k.
+Proof.
+  intros c L addLine points threshold isGE mode HL HLr. induction n; intros pool succ ops s Hops Hpool; cbn [wod_budget_cnt].
+  - unfold rounds_charged; lia.
+  - destruct (ops_add c ops pool) as [ops' over] eqn:Ha.
+    destruct (charge_step _ _ _ _ _ _ HL HLr Hops Hpool Ha) as [C1 C2]. destruct over.
+    + specialize (C1 eq_refl). unfold rounds_charged. lia.
+    + destruct (C2 eq_refl) as [E1 E2].
+      destruct (wod_round _ _ _ _ _ _ _ _ _ _ _) as [[[[sc add] x] s1]|]; [|unfold rounds_charged; lia].
+      destruct (0 <? add) eqn:Hadd; [|unfold rounds_charged; lia]. apply Z.ltb_lt in Hadd.
+      assert (Hops' : 0 <= ops' <= MaxInt64) by lia.
+      specialize (IHn add (succ + sc) ops' s1 Hops' ltac:(lia)).
+      destruct (wod_budget_cnt n c addLine points threshold isGE mode add (succ + sc) ops' s1) as [r k].
+      unfold rounds_charged in *. destruct IHn as (K1 & K2 & K3). destruct r; lia.
+Qed.
+
+Theorem C07_dc_rounds_charged : forall c L addLine points mode, cfg_op_limit c = L -> 0 < L < MaxInt64 ->
+  forall n pool result ops s, 0 <= ops <= MaxInt64 -> 0 <= pool ->
+  let '(r, k) := dc_budget_cnt n c addLine points mode pool result ops s in rounds_charged L ops r k.
+Proof.
+  intros c L addLine points mode HL HLr. induction n; intros pool result ops s Hops Hpool; cbn [dc_budget_cnt].
+  - unfold rounds_charged; lia.
+  - destruct (ops_add c ops pool) as [ops' over] eqn:Ha.
+    destruct (charge_step _ _ _ _ _ _ HL HLr Hops Hpool Ha) as [C1 C2]. destruct over.
+    + specialize (C1 eq_refl). unfold rounds_charged. lia.
+    + destruct (C2 eq_refl) as [E1 E2].
+      destruct (dc_round _ _ _ _ _ _ _ _ _) as [[[[mx add] x] s1]|]; [|unfold rounds_charged; lia].
+      destruct (0 <? add) eqn:Hadd; [|unfold rounds_charged; lia]. apply Z.ltb_lt in Hadd.
+      assert (Hops' : 0 <= ops' <= MaxInt64) by lia.
+      specialize (IHn add (wrap64 (result + mx)) ops' s1 Hops' ltac:(lia)).
+      destruct (dc_budget_cnt n c addLine points mode add (wrap64 (result + mx)) ops' s1) as [r k].
+      unfold rounds_charged in *. destruct IHn as (K1 & K2 & K3). destruct r; lia.
+Qed.
+
+(* the instruction: with a well-formed operand the outcome is exactly that of the budgeted rounds,
+   started on the running context's counter; a budget stop is `Fail EBudget` with the charged counter *)
+Theorem C07_wod_dc_rounds_charged_step : forall call rf E o m addLine l,
+  fr_live (m_fr m) = VInt addLine :: l ->
+  let fr1 := snd (pop (m_fr m)) in
+  let w := m_w m in
+  let cfg := e_cfg E in
+  (let x := fr_wod fr1 in
+   wod_check addLine (w_pool x) (w_points x) (w_threshold x) = true ->
+   step call rf E (I OpDiceWod o) m =
+   match wod_budget rf cfg addLine (w_points x) (w_threshold x) (w_isge x) (roll_mode cfg) (w_pool x) 0 (ops_of w) (w_pcg w) with
+   | RNoFuel => SFuel
+   | ROver ops s => SFail EBudget (mk fr1 (w_set_pcg (w_set_self_ops w ops) s))
+   | RDone num ops s => dice_result num fr1 (w_set_pcg (w_set_self_ops w ops) s)
+   end /\ 0 <= w_pool x) /\
+  (let x := fr_dc fr1 in
+   dc_check addLine (c_pool x) (c_points x) = true ->
+   step call rf E (I OpDiceDC o) m =
+   match dc_budget rf cfg addLine (c_points x) (roll_mode cfg) (c_pool x) 0 (ops_of w) (w_pcg w) with
+   | RNoFuel => SFuel
+   | ROver ops s => SFail EBudget (mk fr1 (w_set_pcg (w_set_self_ops w ops) s))
+   | RDone num ops s => dice_result num fr1 (w_set_pcg (w_set_self_ops w ops) s)
+   end /\ 0 <= c_pool x).
+Proof.
+  intros call rf E o m addLine l Hl. cbv zeta. split; intros Hc.
+  - split.
+    + unfold step; cbn [i_op i_arg]. unfold with_pop, with_int. destruct (pop (m_fr m)) as [v fr1] eqn:Hp.
+      unfold pop in Hp. rewrite Hl in Hp. injection Hp as <- <-. cbn [snd] in *. cbv beta iota zeta. rewrite Hc. reflexivity.
+    + unfold wod_check in Hc. rewrite !andb_true_iff, !negb_true_iff, orb_false_iff, Z.ltb_ge in Hc. lia.
+  - split.
+    + unfold step; cbn [i_op i_arg]. unfold with_pop, with_int. destruct (pop (m_fr m)) as [v fr1] eqn:Hp.
+      unfold pop in Hp. rewrite Hl in Hp. injection Hp as <- <-. cbn [snd] in *. cbv beta iota zeta. rewrite Hc. reflexivity.
+    + unfold dc_check in Hc. rewrite !andb_true_iff, !negb_true_iff, orb_false_iff, Z.ltb_ge in Hc. lia.
+Qed.
+
+(* ------------------------------------------------------------------ B3: the counter only grows *)
+Definition dice_ok (fr : frame) : Prop := Forall (fun d => 0 <= d_times d) (fr_dice fr).
+
+Lemma err_invalid_dice : forall fr, fr_dice (err_invalid fr) = fr_dice fr.
+Proof. intros; unfold err_invalid. destruct (fr_err fr); reflexivity. Qed.
+Lemma pop_dice : forall fr v fr1, pop fr = (v, fr1) -> fr_dice fr1 = fr_dice fr.
+Proof.
+  unfold pop; intros fr v fr1. destruct (fr_live fr); intros [= <- <-]; cbn [fr_set_stack fr_dice]; [apply err_invalid_dice|reflexivity].
+Qed.
+Lemma pop_n_aux_dice : forall n fr acc l fr1, pop_n_aux n fr acc = (l, fr1) -> fr_dice fr1 = fr_dice fr.
+Proof.
+  induction n; intros fr acc l fr1; cbn [pop_n_aux]; [intros [= <- <-]; reflexivity|].
+  destruct (pop fr) as [v fr0] eqn:Hp. intros H. rewrite (IHn _ _ _ _ H). exact (pop_dice _ _ _ Hp).
+Qed.
+Lemma pop_n_dice : forall n fr l fr1, pop_n n fr = (l, fr1) -> fr_dice fr1 = fr_dice fr.
+Proof.
+  unfold pop_n; intros n fr l fr1. destruct (n <=? 0); [intros [= <- <-]; reflexivity|].
+  destruct (pop_n_aux _ _ _) as [l1 fr0] eqn:Hp. intros [= <- <-]. cbn [fr_set_stack fr_dice]. exact (pop_n_aux_dice _ _ _ _ _ Hp).
+Qed.
+Lemma set_top_dice : forall fr t fr1, set_top fr t = Some fr1 -> fr_dice fr1 = fr_dice fr.
+Proof.
+  unfold set_top; intros fr t fr1. destruct (t <=? fr_top fr).
+  - destruct (lower_top _ _ _). intros [= <-]. reflexivity.
+  - destruct (raise_top _ _ _) as [[l d]|]; [|discriminate]. intros [= <-]. reflexivity.
+Qed.
+Lemma last_detail_dice : forall fr, fr_dice (last_detail fr) = fr_dice fr.
+Proof. intros; unfold last_detail. destruct (fr_details fr); reflexivity. Qed.
+Lemma push_dice : forall v fr fr1, push v fr = Some fr1 -> fr_dice fr1 = fr_dice fr.
+Proof. unfold push; intros v fr fr1. destruct (_ <=? _); [discriminate|]. intros [= <-]. reflexivity. Qed.
+
+Lemma wrap64_range : forall z, MinInt64 <= wrap64 z <= MaxInt64.
+Proof. intros; unfold wrap64, MinInt64, MaxInt64, two63, two64. pose proof (Z.mod_pos_bound (z + 9223372036854775808) 18446744073709551616). lia. Qed.
+
+(* the rounds only add to the counter *)
+Lemma wod_budget_mono : forall n c addLine points threshold isGE mode pool succ ops s,
+  0 <= ops <= MaxInt64 -> 0 <= pool ->
+  match wod_budget n c addLine points threshold isGE mode pool succ ops s with
+  | RDone _ ops' _ | ROver ops' _ => ops <= ops' <= MaxInt64
+  | RNoFuel => True
+  end.
+Proof.
+  induction n; intros c addLine points threshold isGE mode pool succ ops s Hops Hpool; cbn [wod_budget]; [exact Logic.I|].
+  destruct (ops_add c ops pool) as [ops' over] eqn:Ha.
+  destruct (C07_ops_add_spec _ _ _ _ _ Hops Hpool Ha) as (H1 & H2 & _). destruct over; [lia|].
+  destruct (wod_round _ _ _ _ _ _ _ _ _ _ _) as [[[[sc add] x] s1]|]; [|exact Logic.I].
+  destruct (0 <? add) eqn:Hadd; [|lia]. apply Z.ltb_lt in Hadd.
+  specialize (IHn c addLine points threshold isGE mode add (succ + sc) ops' s1 ltac:(lia) ltac:(lia)).
+  destruct (wod_budget n c addLine points threshold isGE mode add (succ + sc) ops' s1); try exact Logic.I; lia.
+Qed.
+Lemma dc_budget_mono : forall n c addLine points mode pool result ops s,
+  0 <= ops <= MaxInt64 -> 0 <= pool ->
+  match dc_budget n c addLine points mode pool result ops s with
+  | RDone _ ops' _ | ROver ops' _ => ops <= ops' <= MaxInt64
+  | RNoFuel => True
+  end.
+Proof.
+  induction n; intros c addLine points mode pool result ops s Hops Hpool; cbn [dc_budget]; [exact Logic.I|].
+  destruct (ops_add c ops pool) as [ops' over] eqn:Ha.
+  destruct (C07_ops_add_spec _ _ _ _ _ Hops Hpool Ha) as (H1 & H2 & _). destruct over; [lia|].
+  destruct (dc_round _ _ _ _ _ _ _ _ _) as [[[[mx add] x] s1]|]; [|exact Logic.I].
+  destruct (0 <? add) eqn:Hadd; [|lia]. apply Z.ltb_lt in Hadd.
+  specialize (IHn c addLine points mode add (wrap64 (result + mx)) ops' s1 ltac:(lia) ltac:(lia)).
+  destruct (dc_budget n c addLine points mode add (wrap64 (result + mx)) ops' s1); try exact Logic.I; lia.
+Qed.
+
+Definition run_pre (m : machine) : Prop :=
+  w_chain (m_w m) <> [] /\ 0 <= ops_of (m_w m) <= MaxInt64 /\ dice_ok (m_fr m).
+
+Section Mono.
+  Variable call : machine -> result.
+  Variable rfuel : nat.
+  Variable E : env.
+  Variable L : Z.
+  Hypothesis HL : cfg_op_limit (e_cfg E) = L.
+  Hypothesis HLr : 0 < L <= MaxInt64 - 100.
+  Hypothesis Hcall : forall m m', run_pre m -> call m = Fin m' -> ops_of (m_w m) <= ops_of (m_w m') <= MaxInt64.
+  Variable c1 : Z.
+  Hypothesis Hc1 : 0 <= c1.
+
+  Definition W (w : world) : Prop := w_chain w <> [] /\ c1 <= ops_of w <= MaxInt64.
+  Definition rmono {A} (r : R A) : Prop := match r with ROk _ w => W w | _ => True end.
+
+  Lemma rmono_rbind : forall A B (r : R A) (k : A -> world -> R B),
+    rmono r -> (forall a w, W w -> rmono (k a w)) -> rmono (rbind r k).
+  Proof. intros A B r k H1 H2. destruct r; cbn; auto. Qed.
+
+  Ltac w_solve :=
+    unfold W, ops_of, w_self, store_name, w_set_heap, w_set_pcg, w_add_st, st_log in *;
+    cbn [w_chain w_heap w_pcg w_st] in *; assumption.
+
+  Ltac rmono_tac :=
+    repeat first
+      [ exact Logic.I
+      | match goal with |- rmono (ROk _ ?w) => change (W w); w_solve end
+      | progress cbv zeta
+      | apply rmono_rbind; [|intros]
+      | match goal with
+        | |- rmono (if ?b then _ else _) => destruct b
+        | |- rmono (match ?x with _ => _ end) => destruct x
+        end ].
+
+  Lemma W_head : forall w x r, W w -> w_chain w = x :: r -> c1 <= c_ops x <= MaxInt64.
+  Proof. unfold W, ops_of, w_self; intros w x r [_ H] Hc. rewrite Hc in H. exact H. Qed.
+
+  Lemma computed_execute_mono : forall cid k w, W w -> (k = 0%nat -> ops_of w <= L) ->
+    rmono (computed_execute call E cid k w).
+  Proof.
+    intros cid k w Hw Hk. unfold computed_execute.
+    destruct (nth_error (w_chain w) k) as [t|] eqn:Hn; [|exact Logic.I].
+    destruct (cattrs_force cid (w_heap w)) as [mapid h1].
+    destruct (limit_hit E _); [exact Logic.I|].
+    destruct (f_lookup (e_ftab E) cid) as [d|]; [|exact Logic.I].
+    destruct (f_code d) as [body|]; [|exact Logic.I].
+    destruct k as [|k].
+    - (* the running context: its counter becomes the callee's final one *)
+      destruct (w_chain w) as [|x r] eqn:Hc; [discriminate|]. cbn in Hn. injection Hn as ->.
+      pose proof (W_head _ _ _ Hw Hc) as Hx. specialize (Hk eq_refl). unfold ops_of, w_self in Hk. rewrite Hc in Hk. cbn in Hk.
+      assert (Hw100 : wrap64 (c_ops t + 100) = c_ops t + 100) by (apply wrap64_id; unfold in_i64, two63, MaxInt64 in *; lia).
+      match goal with |- rmono (match call ?sub with _ => _ end) =>
+        pose proof (Hcall sub) as Hs; destruct (call sub) as [m'| | | |]; try exact Logic.I end.
+      + specialize (Hs m'). cbn [m_w m_fr] in Hs. unfold run_pre, ops_of, w_self, dice_ok in Hs. cbn in Hs. rewrite Hw100 in Hs.
+        destruct Hs as [Hs1 Hs2]; [split; [discriminate|split; [unfold MaxInt64 in *; lia|constructor]]|reflexivity|].
+        destruct (w_chain (m_w m')) as [|s' [|t' rest']] eqn:Hc'; try exact Logic.I.
+        cbn. unfold W, ops_of, w_self. cbn. split; [discriminate|]. cbn in Hs1, Hs2. lia.
+      + destruct (w_chain (m_w m)) as [|s' [|t' rest']]; exact Logic.I.
+    - (* an upper context: the running context's counter is untouched *)
+      destruct (w_chain w) as [|x r] eqn:Hc; [discriminate|].
+      pose proof (W_head _ _ _ Hw Hc) as Hx.
+      match goal with |- rmono (match call ?sub with _ => _ end) => destruct (call sub) as [m'| | | |]; try exact Logic.I end.
+      + destruct (w_chain (m_w m')) as [|s' [|t' rest']]; try exact Logic.I.
+        cbn. unfold W, ops_of, w_self. cbn. split; [discriminate|exact Hx].
+      + destruct (w_chain (m_w m)) as [|s' [|t' rest']]; exact Logic.I.
+  Qed.
+
+  Lemma func_invoke_mono : forall fid args w, W w -> ops_of w <= L -> rmono (func_invoke call E fid args w).
+  Proof.
+    intros fid args w Hw Hk. unfold func_invoke.
+    destruct (f_lookup (e_ftab E) fid) as [d|]; [|exact Logic.I].
+    destruct (w_chain w) as [|self ups] eqn:Hc; [exact Logic.I|].
+    destruct (negb _); [exact Logic.I|].
+    destruct (alloc_map _ _) as [mapid h1].
+    destruct (limit_hit E _); [exact Logic.I|].
+    destruct (f_code d) as [body|]; [|exact Logic.I].
+    pose proof (W_head _ _ _ Hw Hc) as Hx. unfold ops_of, w_self in Hk. rewrite Hc in Hk. cbn in Hk.
+    assert (Hw100 : wrap64 (c_ops self + 100) = c_ops self + 100) by (apply wrap64_id; unfold in_i64, two63, MaxInt64 in *; lia).
+    match goal with |- rmono (match call ?sub with _ => _ end) =>
+      pose proof (Hcall sub) as Hs; destruct (call sub) as [m'| | | |]; try exact Logic.I end.
+    - specialize (Hs m'). cbn [m_w m_fr] in Hs. unfold run_pre, ops_of, w_self, dice_ok in Hs. cbn in Hs. rewrite Hw100 in Hs.
+      destruct Hs as [Hs1 Hs2]; [split; [discriminate|split; [unfold MaxInt64 in *; lia|constructor]]|reflexivity|].
+      destruct (w_chain (m_w m')) as [|s' [|t' rest']] eqn:Hc'; try exact Logic.I.
+      cbn. unfold W, ops_of, w_self. cbn. split; [discriminate|]. cbn in Hs1, Hs2. lia.
+    - destruct (w_chain (m_w m)) as [|s' rest']; exact Logic.I.
+  Qed.
+
+  Lemma load_walk_mono : forall n k name isRaw w, W w -> (k = 0%nat -> ops_of w <= L) ->
+    rmono (load_walk call E n k name isRaw w).
+  Proof.
+    induction n; intros k name isRaw w Hw Hk; cbn [load_walk]; [exact Hw|].
+    destruct (nth_error (w_chain w) k); [|exact Hw].
+    apply rmono_rbind.
+    - destruct (match mget name _ with Some v => v | None => VNull end); try exact Hw.
+      destruct isRaw; [exact Hw|apply computed_execute_mono; assumption].
+    - intros v w' Hw'. destruct v; try exact Hw'. apply IHn; [exact Hw'|discriminate].
+  Qed.
+
+  Lemma load_name_mono : forall name isRaw w, W w -> ops_of w <= L -> rmono (load_name call E name isRaw w).
+  Proof. intros; apply load_walk_mono; auto. Qed.
+
+  Lemma load_local_mono : forall name w, W w -> ops_of w <= L -> rmono (load_local call E name w).
+  Proof.
+    intros name w Hw Hk. unfold load_local.
+    destruct (match mget name _ with Some v => v | None => VNull end); try exact Hw. apply computed_execute_mono; auto.
+  Qed.
+
+  Lemma new_arr_mono : forall l w, W w -> rmono (new_arr l w).
+  Proof. intros l w Hw; unfold new_arr. destruct (alloc_arr _ _). change (W (w_set_heap w h)). w_solve. Qed.
+  Lemma str_of_mono : forall E' b v w, W w -> rmono (str_of E' b v w).
+  Proof. intros E' b v w Hw; unfold str_of. rmono_tac. Qed.
+  Lemma roll1_mono : forall n w, W w -> rmono (roll1 n w).
+  Proof. intros n w Hw; unfold roll1. rmono_tac. Qed.
+  Lemma shuffle_loop_mono : forall i l w, W w -> rmono (shuffle_loop i l w).
+  Proof.
+    induction i; intros l w Hw; cbn [shuffle_loop]; [exact Hw|].
+    apply rmono_rbind; [apply roll1_mono; exact Hw|]. intros; apply IHi; assumption.
+  Qed.
+  Lemma shuffle_mono : forall l w, W w -> rmono (shuffle l w).
+  Proof. intros; apply shuffle_loop_mono; assumption. Qed.
+  Lemma array_repeat_mono : forall id t w, W w -> rmono (array_repeat id t w).
+  Proof. intros id t w Hw; unfold array_repeat. rmono_tac; apply new_arr_mono; exact Hw. Qed.
+
+  Lemma attr_get_mono : forall v name w, W w -> ops_of w <= L -> rmono (attr_get call E v name w).
+  Proof.
+    intros v name w Hw Hk. unfold attr_get. destruct v; try exact Hw.
+    - rmono_tac.
+    - apply rmono_rbind; [apply load_local_mono; assumption|intros; assumption].
+  Qed.
+  Lemma attr_set_mono : forall v name x w, W w -> rmono (attr_set v name x w).
+  Proof. intros v name x w Hw; unfold attr_set. rmono_tac. Qed.
+  Lemma item_get_mono : forall a b w, W w -> rmono (item_get a b w).
+  Proof. intros a b w Hw; unfold item_get. rmono_tac. Qed.
+  Lemma item_set_mono : forall a b x w, W w -> rmono (item_set a b x w).
+  Proof. intros a b x w Hw; unfold item_set. rmono_tac. Qed.
+  Lemma slice_get_mono : forall o a b w, W w -> rmono (slice_get o a b w).
+  Proof. intros o a b w Hw; unfold slice_get. rmono_tac; apply new_arr_mono; exact Hw. Qed.
+  Lemma slice_set_mono : forall o a b x w, W w -> rmono (slice_set o a b x w).
+  Proof. intros o a b x w Hw; unfold slice_set. rmono_tac. Qed.
+  Lemma bin_op_mono : forall op v1 v2 w, W w -> rmono (bin_op rfuel E op v1 v2 w).
+  Proof.
+    intros op v1 v2 w Hw. unfold bin_op.
+    destruct op; try exact Logic.I; destruct v1; try exact Logic.I; destruct v2; try exact Logic.I;
+      rmono_tac; try (apply new_arr_mono; exact Hw); try (apply array_repeat_mono; exact Hw).
+  Qed.
+  Lemma push_range_mono : forall a b w, W w -> rmono (push_range a b w).
+  Proof. intros a b w Hw; unfold push_range. rmono_tac; apply new_arr_mono; exact Hw. Qed.
+
+  Lemma native_call_mono : forall name self args w, W w -> ops_of w <= L -> rmono (native_call call E name self args w).
+  Proof.
+    intros name self args w Hw Hk. unfold native_call.
+    destruct (native_sig name) as [np defaults]. cbv zeta.
+    repeat match goal with
+    | |- rmono (if ?b then _ else _) => destruct b
+    end;
+    try exact Logic.I;
+    repeat match goal with
+    | |- rmono (load_name _ _ _ _ _) => apply load_name_mono; assumption
+    | |- rmono (computed_execute _ _ _ _ _) => apply computed_execute_mono; [assumption|intros; assumption]
+    | |- rmono (new_arr _ _) => apply new_arr_mono; assumption
+    | |- rmono (shuffle _ _) => apply shuffle_mono; assumption
+    | |- rmono (roll1 _ _) => apply roll1_mono; assumption
+    | |- rmono (str_of _ _ _ _) => apply str_of_mono; assumption
+    | |- rmono (rbind _ _) => apply rmono_rbind; [|intros]
+    | |- rmono (ROk _ ?w) => change (W w); w_solve
+    | |- rmono (if ?b then _ else _) => destruct b
+    | |- rmono (match ?x with _ => _ end) => destruct x
+    | |- _ => exact Logic.I
+    end.
+  Qed.
+
+  (* ---- one instruction *)
+  Definition Q2 (r : sresult) : Prop :=
+    match r with SNext m => W (m_w m) /\ dice_ok (m_fr m) | SStop m => W (m_w m) | _ => True end.
+  Definition step_mono (op : opcode) : Prop :=
+    forall o m, W (m_w m) -> ops_of (m_w m) <= L -> dice_ok (m_fr m) -> Q2 (step call rfuel E (I op o) m).
+
+  Lemma Q2_next : forall fr w, W w -> dice_ok fr -> Q2 (SNext (mk fr w)).
+  Proof. intros; split; assumption. Qed.
+  Lemma Q2_do_push : forall v fr w, W w -> dice_ok fr -> Q2 (do_push v fr w).
+  Proof.
+    intros v fr w Hw Hd. unfold do_push. destruct (push v fr) as [fr1|] eqn:Hp; [|exact Logic.I].
+    split; [exact Hw|]. unfold dice_ok in *. cbn [mk m_fr]. rewrite (push_dice _ _ _ Hp). exact Hd.
+  Qed.
+  Lemma Q2_dice_result : forall z fr w, W w -> dice_ok fr -> Q2 (dice_result z fr w).
+  Proof. intros; unfold dice_result. apply Q2_do_push; [assumption|]. unfold dice_ok in *. rewrite last_detail_dice. assumption. Qed.
+  Lemma Q2_lift : forall A (r : R A) fr k, rmono r -> (forall a w, W w -> Q2 (k a w)) -> Q2 (lift r fr k).
+  Proof. intros A r fr k H1 H2. destruct r; cbn; auto. unfold check_err. destruct (fr_err fr); cbn; auto. Qed.
+
+  Lemma W_same_chain : forall w w', w_chain w' = w_chain w -> W w -> W w'.
+  Proof. unfold W, ops_of, w_self; intros w w' H. rewrite H. auto. Qed.
+
+  Lemma W_set_self_ops : forall w x, W w -> ops_of w <= x <= MaxInt64 -> W (w_set_self_ops w x).
+  Proof.
+    unfold W, ops_of, w_self, w_set_self_ops; intros w x [H1 H2] H3. destruct (w_chain w) as [|a r]; [congruence|].
+    cbn in *. split; [discriminate|lia].
+  Qed.
+
+  Lemma W_charged : forall w n, W w -> 0 <= n -> W (charged E w n).
+  Proof.
+    intros w n Hw Hn. unfold charged. apply W_set_self_ops; [exact Hw|].
+    destruct Hw as [_ Hw]. destruct (ops_add (e_cfg E) (ops_of w) n) as [new over] eqn:Ha.
+    assert (Hr : 0 <= ops_of w <= MaxInt64) by lia.
+    destruct (C07_ops_add_spec _ _ _ _ _ Hr Hn Ha) as (H1 & H2 & _). cbn [fst]. lia.
+  Qed.
+
+  Ltac w_tac :=
+    try match goal with |- W (if ?b then _ else _) => destruct b end;
+    first [ assumption
+          | match goal with |- W (w_set_pcg ?w _) => apply (W_same_chain w); [reflexivity|] end; first [assumption | apply W_charged; [assumption|lia]]
+          | w_solve ].
+
+  Ltac d_tac :=
+    unfold dice_ok in *; fr_unfold; rewrite ?last_detail_dice, ?err_invalid_dice;
+    first [ assumption | congruence
+          | constructor; [cbn [d_times dstate0]; lia | first [assumption | congruence]]
+          | match goal with
+            | H : fr_dice _ = ?d :: ?r |- _ =>
+              let HF := fresh "HF" in
+              assert (HF : Forall (fun d => 0 <= d_times d) (d :: r)) by congruence;
+              inversion HF; subst; first [assumption | constructor; [cbn [d_times]; first [assumption | lia] | assumption]]
+            end ].
+
+  Ltac q2_fact :=
+    repeat match goal with
+    | Hp : pop _ = (_, _) |- _ => pose proof (pop_dice _ _ _ Hp); clear Hp
+    | Hp : pop_n _ _ = (_, _) |- _ => pose proof (pop_n_dice _ _ _ _ Hp); clear Hp
+    | Hp : set_top _ _ = Some _ |- _ => pose proof (set_top_dice _ _ _ Hp); clear Hp
+    | Hp : push _ _ = Some _ |- _ => pose proof (push_dice _ _ _ Hp); clear Hp
+    end.
+
+  Ltac q2_r0 :=
+    first [ apply func_invoke_mono; assumption | apply native_call_mono; assumption | apply load_name_mono; assumption
+          | apply attr_get_mono; assumption | apply attr_set_mono; assumption
+          | apply item_get_mono; assumption | apply item_set_mono; assumption | apply slice_get_mono; assumption
+          | apply slice_set_mono; assumption | apply bin_op_mono; assumption | apply push_range_mono; assumption ].
+  Ltac q2_r :=
+    first [ q2_r0 | exact Logic.I
+          | match goal with H : _ = ?r |- rmono ?r => rewrite <- H; q2_r0 end ].
+
+  Ltac q2_go :=
+    repeat (cbv beta iota zeta; first
+      [ exact Logic.I
+      | split; assumption
+      | match goal with |- Q2 (SStop ?m) => change (W (m_w m)); assumption end
+      | apply Q2_do_push; [w_tac | d_tac]
+      | apply Q2_dice_result; [w_tac | d_tac]
+      | apply Q2_next; [w_tac | d_tac]
+      | apply Q2_lift; [q2_r | intros]
+      | progress rewrite add_ops_spec
+      | match goal with
+        | |- Q2 (if ?b then _ else _) => destruct b eqn:?
+        | |- Q2 (match ?x with _ => _ end) => destruct x eqn:?; q2_fact
+        end ]).
+
+  Ltac q2_start :=
+    intros o m Hw HkL Hd; unfold step; cbn [i_op i_arg];
+    unfold with_pop2, with_pop, with_pop_n, with_int, need_dice, arg_int, arg_str, upd_dice; rewrite ?add_ops_spec.
+
+  Ltac by_cases tac :=
+    let op := fresh "op" in let Hin := fresh "Hin" in
+    intros op Hin; cbn [In] in Hin;
+    repeat (destruct Hin as [<-|Hin]; [tac|]); contradiction.
+
+  Lemma step_mono_plain : forall op,
+    In op [OpPushInt; OpPushFlt; OpPushStr; OpPushArr; OpPushDict; OpPushComputed; OpPushFunc; OpPushNull; OpPushThis;
+           OpPushRange; OpPushLast; OpPushDefExpr;
+           OpAdd; OpSub; OpMul; OpDiv; OpMod; OpPow; OpNullCoalescing; OpLt; OpLe; OpEq; OpNe; OpGe; OpGt;
+           OpBitAnd; OpBitOr; OpAnd; OpOr; OpNeg; OpPos; OpInvoke; OpInvokeSelf;
+           OpItemGet; OpItemSet; OpAttrGet; OpAttrSet; OpSliceGet; OpSliceSet;
+           OpPop; OpPopN; OpNop; OpRet; OpHalt; OpPushGlobal; OpStoreGlobal; OpUnknown; OpDiceCustom;
+           OpStSet; OpStMod; OpStX0; OpStX1; OpJmp; OpJe; OpJne; OpJeDup; OpLd; OpLdD; OpLdRaw; OpStore; OpStoreLocal;
+           OpBlockPush; OpBlockPop; OpFstrPush; OpMarkDetail;
+           OpWodInit; OpWodPool; OpWodPoints; OpWodThreshold; OpWodThresholdQ; OpDcInit; OpDcPool; OpDcPoints]
+    -> step_mono op.
+  Proof. by_cases ltac:(q2_start; q2_go). Qed.
+
+  Lemma step_mono_dice : forall op,
+    In op [OpDiceInit; OpDiceSetTimes; OpDiceSetKeepLow; OpDiceSetKeepHigh; OpDiceSetDropLow; OpDiceSetDropHigh;
+           OpDiceSetMin; OpDiceSetMax; OpDiceFate; OpFstrPop] -> step_mono op.
+  Proof. by_cases ltac:(q2_start; q2_go). Qed.
+
+  Lemma step_mono_OpDice : step_mono OpDice.
+  Proof.
+    q2_start. destruct (fr_dice (m_fr m)) as [|d rest] eqn:Hfd; [q2_go|].
+    assert (Hd0 : 0 <= d_times d /\ Forall (fun d => 0 <= d_times d) rest)
+      by (unfold dice_ok in Hd; rewrite Hfd in Hd; inversion Hd; auto).
+    destruct Hd0 as [Hd0 Hd1]. q2_go.
+  Qed.
+
+  Lemma step_mono_coc : forall op, In op [OpCocBonus; OpCocPenalty] -> step_mono op.
+  Proof.
+    by_cases ltac:(q2_start; q2_go).
+  Qed.
+
+  Lemma step_mono_OpLdFs : step_mono OpLdFs.
+  Proof.
+    q2_start. destruct o; try exact Logic.I.
+    destruct ((0 <? z) && (fr_top (m_fr m) - z <? 0)); [exact Logic.I|].
+    match goal with |- Q2 (?f ?l0 ?a0) => cut (forall l acc, Q2 (f l acc)); [intros Hx; apply Hx|] end.
+    induction l as [|v l IH]; intros acc; cbv beta iota.
+    - destruct (stack_size <=? fr_top (m_fr m) - z); [exact Logic.I|].
+      destruct (set_top (m_fr m) (fr_top (m_fr m) - z)) as [fr1|] eqn:Hs; [|exact Logic.I].
+      apply Q2_do_push; [assumption|]. unfold dice_ok in *. rewrite (set_top_dice _ _ _ Hs). assumption.
+    - destruct (to_string _ _ v); [apply IH|exact Logic.I].
+  Qed.
+
+  Lemma wod_check_pool : forall a pool pts thr, negb (wod_check a pool pts thr) = false -> 0 <= pool.
+  Proof.
+    unfold wod_check; intros a pool pts thr H. apply negb_false_iff in H.
+    rewrite !andb_true_iff, !negb_true_iff, orb_false_iff, Z.ltb_ge in H. lia.
+  Qed.
+  Lemma dc_check_pool : forall a pool pts, negb (dc_check a pool pts) = false -> 0 <= pool.
+  Proof.
+    unfold dc_check; intros a pool pts H. apply negb_false_iff in H.
+    rewrite !andb_true_iff, !negb_true_iff, orb_false_iff, Z.ltb_ge in H. lia.
+  Qed.
+
+  Lemma step_mono_OpDiceWod : step_mono OpDiceWod.
+  Proof.
+    q2_start. destruct (pop (m_fr m)) as [v fr1] eqn:Hp. q2_fact. destruct v; try exact Logic.I. cbv beta iota zeta.
+    destruct (negb (wod_check _ _ _ _)) eqn:Hc; [exact Logic.I|]. apply wod_check_pool in Hc.
+    assert (Hr : 0 <= c_ops (w_self (m_w m)) <= MaxInt64) by (destruct Hw as [_ Hw]; unfold ops_of in Hw; lia).
+    match goal with |- context [wod_budget ?a ?b ?c ?d ?e ?f ?g ?h ?i ?j ?k] =>
+      pose proof (wod_budget_mono a b c d e f g h i j k Hr Hc) as Hm; destruct (wod_budget a b c d e f g h i j k) end;
+      try exact Logic.I.
+    apply Q2_dice_result; [|d_tac].
+    apply (W_same_chain (w_set_self_ops (m_w m) ops)); [reflexivity|]. apply W_set_self_ops; [assumption|exact Hm].
+  Qed.
+
+  Lemma step_mono_OpDiceDC : step_mono OpDiceDC.
+  Proof.
+    q2_start. destruct (pop (m_fr m)) as [v fr1] eqn:Hp. q2_fact. destruct v; try exact Logic.I. cbv beta iota zeta.
+    destruct (negb (dc_check _ _ _)) eqn:Hc; [exact Logic.I|]. apply dc_check_pool in Hc.
+    assert (Hr : 0 <= c_ops (w_self (m_w m)) <= MaxInt64) by (destruct Hw as [_ Hw]; unfold ops_of in Hw; lia).
+    match goal with |- context [dc_budget ?a ?b ?c ?d ?e ?f ?g ?h ?i] =>
+      pose proof (dc_budget_mono a b c d e f g h i Hr Hc) as Hm; destruct (dc_budget a b c d e f g h i) end;
+      try exact Logic.I.
+    apply Q2_dice_result; [|d_tac].
+    apply (W_same_chain (w_set_self_ops (m_w m) ops)); [reflexivity|]. apply W_set_self_ops; [assumption|exact Hm].
+  Qed.
+
+  Theorem step_ops_mono : forall op, step_mono op.
+  Proof.
+    intros op.
+    destruct op;
+      first [ apply step_mono_plain; cbn; tauto
+            | apply step_mono_dice; cbn; tauto
+            | apply step_mono_coc; cbn; tauto
+            | apply step_mono_OpDice | apply step_mono_OpLdFs | apply step_mono_OpDiceWod | apply step_mono_OpDiceDC ].
+  Qed.
+End Mono.
+
+Lemma exec_count_fst : forall fuel E m, fst (exec_count fuel E m) = exec fuel E m.
+Proof.
+  induction fuel as [|f IH]; intros E m; [reflexivity|]. cbn [exec_count exec].
+  destruct (zlen (fr_code (m_fr m)) <=? fr_pc (m_fr m)); [reflexivity|].
+  destruct (count_op E m) as [m1 over]. destruct over; [reflexivity|].
+  destruct (fr_err (m_fr m)); [reflexivity|]. destruct (fr_top (m_fr m) =? stack_size); [reflexivity|].
+  destruct (fr_pc (m_fr m) <? 0); [reflexivity|]. destruct (nth_error _ _); [|reflexivity].
+  destruct (step (exec f E) f E i m1); try reflexivity.
+  match goal with |- context [exec_count f E ?x] => specialize (IH E x); destruct (exec_count f E x) end. exact IH.
+Qed.
+
+Lemma exec_mono_bound_aux : forall E L, 0 < cfg_op_limit (e_cfg E) -> cfg_op_limit (e_cfg E) = L -> L <= MaxInt64 - 100 ->
+  forall fuel m, run_pre m ->
+  (forall m', exec fuel E m = Fin m' -> ops_of (m_w m) <= ops_of (m_w m') <= MaxInt64) /\
+  Z.of_nat (snd (exec_count fuel E m)) <= Z.max 0 (L - ops_of (m_w m)).
+Proof.
+  intros E L HL0 HL HLr. induction fuel as [|f IH]; intros m Hpre.
+  - cbn. split; [discriminate|lia].
+  - destruct Hpre as (Hch & Hops & Hdice). cbn [exec_count exec].
+    destruct (zlen (fr_code (m_fr m)) <=? fr_pc (m_fr m)).
+    { cbn [snd]. split; [|lia]. destruct (fr_err (m_fr m)); [discriminate|]. intros m' [= <-]. lia. }
+    rewrite count_op_spec.
+    destruct (ops_add (e_cfg E) (ops_of (m_w m)) 1) as [new over] eqn:Ha. cbn [snd fst].
+    assert (H01 : 0 <= 1) by lia.
+    destruct (C07_ops_add_spec _ _ _ _ _ Hops H01 Ha) as (A1 & A2 & A3 & A4).
+    destruct over; [cbn [snd]; split; [discriminate|lia]|].
+    assert (Hnew : new = ops_of (m_w m) + 1 /\ new <= L).
+    { assert (~ (0 < cfg_op_limit (e_cfg E) /\ cfg_op_limit (e_cfg E) < new)) by (intros X; apply A4 in X; discriminate).
+      unfold MaxInt64 in *. lia. }
+    destruct Hnew as [Hn1 Hn2].
+    destruct (fr_err (m_fr m)); [cbn [snd]; split; [discriminate|lia]|].
+    destruct (fr_top (m_fr m) =? stack_size); [cbn [snd]; split; [discriminate|lia]|].
+    destruct (fr_pc (m_fr m) <? 0); [cbn [snd]; split; [discriminate|lia]|].
+    destruct (nth_error _ _) as [[op o]|]; [|cbn [snd]; split; [discriminate|lia]].
+    assert (Hm1 : ops_of (m_w (counted E m)) = new) by (rewrite counted_ops by exact Hch; rewrite Ha; reflexivity).
+    assert (Hch1 : w_chain (m_w (counted E m)) <> []).
+    { unfold counted, w_set_self_ops; cbn [m_w]. destruct (w_chain (m_w m)); [congruence|discriminate]. }
+    assert (HW : W new (m_w (counted E m))) by (unfold W; rewrite Hm1; split; [exact Hch1|lia]).
+    assert (Hcall : forall m0 m', run_pre m0 -> exec f E m0 = Fin m' -> ops_of (m_w m0) <= ops_of (m_w m') <= MaxInt64)
+      by (intros m0 m' P0; apply (IH m0 P0)).
+    assert (HLr2 : 0 < L <= MaxInt64 - 100) by (split; [rewrite <- HL; exact HL0|exact HLr]).
+    assert (Hnew0 : 0 <= new) by lia.
+    assert (HmL : ops_of (m_w (counted E m)) <= L) by (rewrite Hm1; exact Hn2).
+    pose proof (step_ops_mono (exec f E) f E L HL HLr2 Hcall new Hnew0 op o (counted E m) HW HmL Hdice) as HQ.
+    destruct (step (exec f E) f E {| i_op := op; i_arg := o |} (counted E m)) as [m2|m2|e m2|s| |s];
+      cbn [snd]; try (split; [discriminate|lia]).
+    + destruct HQ as [[W1 W2] D2].
+      match goal with |- context [exec_count f E ?x] => destruct (IH x) as [I1 I2] end.
+      { unfold run_pre; cbn [m_w m_fr]. split; [exact W1|]. split; [lia|]. exact D2. }
+      cbn [m_w] in I1, I2.
+      match goal with |- context [exec_count f E ?x] => destruct (exec_count f E x) as [r n] end.
+      cbn [snd] in *. split; [|lia]. intros m' Hm'. specialize (I1 m' Hm'). lia.
+    + cbn [Q2] in HQ. destruct HQ as [_ W2]. split; [|lia]. intros m' [= <-]. lia.
+Qed.
+
+(* B3 (main): under a limit L the running context dispatches at most L - c0 instructions (a call into a
+   sub-VM is one dispatch of the caller; the callee is bounded by the same theorem from ITS start
+   counter, which is the caller's + 100), and its counter never goes down *)
+Theorem C07_budget_bounds_dispatches : forall E L, cfg_op_limit (e_cfg E) = L -> 0 < L <= MaxInt64 - 100 ->
+  forall fuel m, run_pre m ->
+  fst (exec_count fuel E m) = exec fuel E m /\
+  Z.of_nat (snd (exec_count fuel E m)) <= Z.max 0 (L - ops_of (m_w m)).
+Proof.
+  intros E L HL [HL0 HLr] fuel m Hpre. split; [apply exec_count_fst|].
+  apply (exec_mono_bound_aux E L); auto. rewrite HL; exact HL0.
+Qed.
+
+Theorem C07_counter_never_lowered : forall E L, cfg_op_limit (e_cfg E) = L -> 0 < L <= MaxInt64 - 100 ->
+  forall fuel m m', run_pre m -> exec fuel E m = Fin m' -> ops_of (m_w m) <= ops_of (m_w m') <= MaxInt64.
+Proof.
+  intros E L HL [HL0 HLr] fuel m m' Hpre. apply (exec_mono_bound_aux E L); auto. rewrite HL; exact HL0.
+Qed.
+
+(* the machine `run` starts: counter 0, so at most L dispatches of the main code *)
+Corollary C07_run_dispatch_bound : forall E L c src st fuel, cfg_op_limit (e_cfg E) = L -> 0 < L <= MaxInt64 - 100 ->
+  let m0 := {| m_fr := new_frame c (Some src);
+               m_w := {| w_heap := vs_heap st; w_pcg := vs_pcg st; w_st := [];
+                         w_chain := [{| c_attrs := vs_attrs st; c_ops := 0 |}] |} |} in
+  (snd (exec_count fuel E m0) <= Z.to_nat L)%nat.
+Proof.
+  intros E L c src st fuel HL HLr m0.
+  destruct (C07_budget_bounds_dispatches E L HL HLr fuel m0) as [_ H].
+  { unfold run_pre, m0, ops_of, w_self, dice_ok, MaxInt64; cbn. split; [discriminate|]. split; [lia|constructor]. }
+  change (ops_of (m_w m0)) with 0 in H. lia.
+Qed.
+
+(* a call / a computed evaluation costs 100: the callee's counter starts at caller + 100 (the callee is
+   only ever run on such a machine), and when that exceeds the limit the callee is not started *)
+Theorem C07_call_costs_100 : forall E fid args w self ups,
+  w_chain w = self :: ups ->
+  let ops1 := wrap64 (c_ops self + 100) in
+  (forall call1 call2,
+     (forall sub, ops_of (m_w sub) = ops1 -> fr_pc (m_fr sub) = 0 -> fr_live (m_fr sub) = [] -> call1 sub = call2 sub) ->
+     func_invoke call1 E fid args w = func_invoke call2 E fid args w) /\
+  (limit_hit E ops1 = true -> forall call d, f_lookup (e_ftab E) fid = Some d -> length (f_params d) = length args ->
+     exists w1, func_invoke call E fid args w = RFail EBudget w1 /\ ops_of w1 = ops1 /\ w_pcg w1 = w_pcg w).
+Proof.
+  intros E fid args w self ups Hc ops1. split.
+  - intros call1 call2 H. unfold func_invoke. rewrite Hc.
+    destruct (f_lookup (e_ftab E) fid) as [d|]; [|reflexivity]. destruct (negb _); [reflexivity|].
+    destruct (alloc_map _ _) as [mapid h1]. fold ops1. destruct (limit_hit E ops1); [reflexivity|].
+    destruct (f_code d) as [body|]; [|reflexivity]. rewrite H; reflexivity.
+  - intros Hl call d Hd Hlen. unfold func_invoke. rewrite Hc, Hd, Hlen, Nat.eqb_refl. cbn [negb].
+    destruct (alloc_map _ _) as [mapid h1]. fold ops1. rewrite Hl. eexists; split; [reflexivity|]. split; reflexivity.
+Qed.
+
+Theorem C07_computed_costs_100 : forall E cid w self ups,
+  w_chain w = self :: ups ->
+  let ops1 := wrap64 (c_ops self + 100) in
+  (forall call1 call2,
+     (forall sub, ops_of (m_w sub) = ops1 -> fr_pc (m_fr sub) = 0 -> fr_live (m_fr sub) = [] -> call1 sub = call2 sub) ->
+     computed_execute call1 E cid 0 w = computed_execute call2 E cid 0 w) /\
+  (limit_hit E ops1 = true -> forall call,
+     exists w1, computed_execute call E cid 0 w = RFail EBudget w1 /\ ops_of w1 = ops1 /\ w_pcg w1 = w_pcg w).
+Proof.
+  intros E cid w self ups Hc ops1. split.
+  - intros call1 call2 H. unfold computed_execute. rewrite Hc. cbn [nth_error firstn skipn].
+    destruct (cattrs_force cid (w_heap w)) as [mapid h1]. fold ops1. destruct (limit_hit E ops1); [reflexivity|].
+    destruct (f_lookup (e_ftab E) cid) as [d|]; [|reflexivity].
+    destruct (f_code d) as [body|]; [|reflexivity]. rewrite H; reflexivity.
+  - intros Hl call. unfold computed_execute. rewrite Hc. cbn [nth_error firstn skipn].
+    destruct (cattrs_force cid (w_heap w)) as [mapid h1]. fold ops1. rewrite Hl. eexists; split; [reflexivity|]. split; reflexivity.
+Qed.
+
+Print Assumptions C07_budget_bounds_dispatches.
+Print Assumptions C07_counter_never_lowered.
+Print Assumptions C07_call_costs_100.
+
+(* non-vacuity: the loop program under a limit of 10 stops with the budget error after exactly 10 dispatches *)
+Definition env_lim (L : Z) : env :=
+  {| e_ftab := []; e_cfg := {| cfg_ignore_div0 := false; cfg_min_mode := false; cfg_max_mode := false; cfg_op_limit := L;
+                               cfg_def_expr_empty := true; cfg_st_callback := false |} |}.
+Example C07_budget_example :
+  (exists st', run 100 (env_lim 10) prog_while "x=1; while x<3 {x=x+1}; x" st0 = Err EBudget st' /\ vs_ops st' = 11) /\
+  snd (exec_count 100 (env_lim 10)
+         {| m_fr := new_frame prog_while (Some "x=1; while x<3 {x=x+1}; x"%string);
+            m_w := {| w_heap := vs_heap st0; w_pcg := vs_pcg st0; w_st := [];
+                      w_chain := [{| c_attrs := vs_attrs st0; c_ops := 0 |}] |} |}) = 10%nat.
+Proof. split; [eexists; split; vm_compute; reflexivity|vm_compute; reflexivity]. Qed.
+
+(* the statement asked for under one name: both kinds of exploding rounds *)
+Theorem C07_wod_dc_rounds_charged : forall c L, cfg_op_limit c = L -> 0 < L < MaxInt64 ->
+  forall n ops pool s, 0 <= ops <= MaxInt64 -> 0 <= pool ->
+  (forall addLine points threshold isGE mode succ,
+     let rk := wod_budget_cnt n c addLine points threshold isGE mode pool succ ops s in
+     fst rk = wod_budget n c addLine points threshold isGE mode pool succ ops s /\ rounds_charged L ops (fst rk) (snd rk)) /\
+  (forall addLine points mode result,
+     let rk := dc_budget_cnt n c addLine points mode pool result ops s in
+     fst rk = dc_budget n c addLine points mode pool result ops s /\ rounds_charged L ops (fst rk) (snd rk)).
+Proof.
+  intros c L HL HLr n ops pool s Hops Hpool. split; intros; cbv zeta; split.
+  - apply wod_budget_cnt_fst.
+  - pose proof (C07_wod_rounds_charged c L addLine points threshold isGE mode HL HLr n pool succ ops s Hops Hpool) as H.
+    destruct (wod_budget_cnt _ _ _ _ _ _ _ _ _ _ _). exact H.
+  - apply dc_budget_cnt_fst.
+  - pose proof (C07_dc_rounds_charged c L addLine points mode HL HLr n pool result ops s Hops Hpool) as H.
+    destruct (dc_budget_cnt _ _ _ _ _ _ _ _ _). exact H.
+Qed.
+
+(* edge of the +100 charge: with a limit within 100 of MaxInt64 the int64 addition wraps and the limit test
+   of the call passes on a NEGATIVE counter (so "never lowered" needs L <= MaxInt64 - 100); the run still
+   fails closed, because numOpCountAdd's own overflow test `MaxInt64 - ops < count` overflows for a negative
+   counter and saturates it: the callee's first dispatch reports the budget error *)
+Definition ftab_one : ftab :=
+  [ {| f_computed := false; f_name := "f"; f_params := []; f_expr := "return 1";
+       f_code := Some [I OpPushInt (OInt 1); I OpRet ONil] |} ].
+Example C07_call_charge_wraps_near_MaxInt64 :
+  let E := {| e_ftab := ftab_one; e_cfg := e_cfg (env_lim (MaxInt64 - 50)) |} in
+  let w := {| w_heap := vs_heap st0; w_pcg := vs_pcg st0; w_st := [];
+              w_chain := [{| c_attrs := vs_attrs st0; c_ops := MaxInt64 - 60 |}] |} in
+  match func_invoke (exec 10 E) E 0 [] w with
+  | RFail EBudget w' => ops_of w' = MinInt64 + 39
+  | _ => False
+  end.
+Proof. vm_compute. reflexivity. Qed.
+
+Print Assumptions C07_ops_add_spec.
+Print Assumptions C07_dispatch_counts.
+Print Assumptions C07_budget_error_once_exceeded.
+Print Assumptions C07_dice_batch_charged_before_rolling.
+Print Assumptions C07_coc_batch_charged_before_rolling.
+Print Assumptions C07_wod_dc_rounds_charged.
+Print Assumptions C07_wod_dc_rounds_charged_step.
+Print Assumptions C07_run_dispatch_bound.
+Print Assumptions C07_computed_costs_100.
